@@ -922,6 +922,67 @@ def _alpha(**fixed):
     return fn
 
 
+# ------------------------------------------------------------------------------------------------ C04.large
+# Added after seeded change C04-5 (a term-by-term path taken only when (number of Kraus operators) x dimension > 128 ignored the right
+# operators): maps whose Kraus families are large, in every list form, against the plain loop sum_i A_i X B_i^dagger.
+def large_cases(tier, seed):
+    for d in (6, 7, 8):
+        yield {"kind": "transpose_pairs", "d": d}
+    yield {"kind": "generic_pairs", "d": 12, "r": 13}
+    yield {"kind": "generic_pairs", "d": 9, "r": 20}
+    yield {"kind": "generic_flat", "d": 6, "r": 30}
+    yield {"kind": "generic_nested", "d": 10, "r": 16}
+    if tier == "thorough":
+        yield {"kind": "transpose_pairs", "d": 12}
+        yield {"kind": "generic_pairs", "d": 16, "r": 9}
+        yield {"kind": "generic_pairs", "d": 4, "r": 40}
+
+
+def large_check(case):
+    from toqito.channel_ops import apply_channel, kraus_to_choi
+
+    d = case["d"]
+    if case["kind"] == "transpose_pairs":
+        pairs = []
+        for i in range(d):
+            for j in range(d):
+                e = np.zeros((d, d), dtype=complex)
+                e[i, j] = 1
+                pairs.append((e, e.T.copy()))  # sum_ij E_ij X E_ji^dagger... = X^T
+    else:
+        r = case["r"]
+        pairs = []
+        for t in range(r):
+            a = catalog.generic_matrix(d, d, 10 + t)
+            b = a if case["kind"] in ("generic_flat", "generic_nested") else catalog.generic_matrix(d, d, 100 + t)
+            pairs.append((a, b))
+    if case["kind"] == "generic_flat":
+        form = [a for a, _ in pairs]
+    elif case["kind"] == "generic_nested":
+        form = [[a] for a, _ in pairs]
+    else:
+        form = [[a, b] for a, b in pairs]
+    X = catalog.generic_matrix(d, d, 7)
+    exp = sum(a @ X @ b.conj().T for a, b in pairs)
+    got, exc = call(apply_channel, X.copy(), form)
+    if exc is not None:
+        return viol("apply_channel raised on a large Kraus family: " + exc_text(exc), site="apply_channel:large:exception")
+    got = np.asarray(got)
+    scale = max(1.0, float(np.abs(exp).max()))
+    if got.shape != exp.shape or np.abs(got - exp).max() > 1e-9 * scale:
+        return viol(f"apply_channel != sum_i A_i X B_i^dagger on a family of {len(pairs)} operators in dimension {d} ({case['kind']})",
+                    site="apply_channel:large", observed=float(np.abs(got - exp).max()) if got.shape == exp.shape else list(got.shape))
+    if case["kind"] == "transpose_pairs" and np.abs(got - X.T).max() > 1e-9:
+        return viol("transpose map given by pairs [E_ij, E_ji] does not transpose", site="apply_channel:large:transpose")
+    J, exc = call(kraus_to_choi, form)
+    if exc is not None:
+        return viol("kraus_to_choi raised on a large Kraus family: " + exc_text(exc), site="kraus_to_choi:large:exception")
+    got2, exc = call(apply_channel, X.copy(), np.asarray(J))
+    if exc is not None or np.abs(np.asarray(got2) - exp).max() > 1e-8 * scale:
+        return viol("Choi form of a large Kraus family acts differently from the Kraus form", site="kraus_to_choi:large")
+    return ok(True)
+
+
 CLAUSES = [
     Clause("C04.rank1", rank1_cases, rank1_check, tol="alg", doc="product basis A in {E,iE} x B in {E,iE} x X in {E,iE}: apply (pairs, Choi, flat, nested), "
            "kraus_to_choi, choi_to_kraus, natural_representation vs reference, every shape (independent left/right)",
@@ -945,6 +1006,8 @@ CLAUSES = [
     Clause("C04.natural", natural_cases, natural_check, tol="alg", doc="natural_representation K vec_r(X) = vec_r(Phi(X)); documented rejection of mismatched shapes"),
     Clause("C04.channel_dim", cdim_cases, cdim_check, tol="exact", doc="channel_dim on every Kraus form / Choi matrix, dim forms int/vector/2x2, allow_rect, env dim, rejections"),
     Clause("C04.reference", ref_cases, ref_check, tol="alg", probe=1, doc="reference formulations cross-checked against each other (no toqito call)"),
+    Clause("C04.large", large_cases, large_check, tol="alg(1e-9)", chunk=1, weight=1.0, probe=1,
+           doc="large Kraus families (up to 64 operators, dimension up to 12; pairs / flat / nested / Choi) vs the plain loop"),
 ]
 
 # every toqito call of this property is repeated with column-major copies of its array arguments (engine.call, layout twin)
